@@ -89,6 +89,9 @@ def run(tier: str, seed: int) -> int:
     cases = chk.generate("Gen_C12", shards=list(range(n)), env={"VERIF_NSHARDS": n})
     obs = drive("harness.props.c12", "drive_case", cases)
     verdicts = chk.judge("Judge_C12", obs)
+    from .. import corrupt as _corrupt
+
+    chk.binding_selftest("Judge_C12", obs, verdicts, _corrupt.c12)
     by_id = {o["id"]: _pretty(o) for o in obs}
     chk.absorb(verdicts, by_id, {c["id"]: c for c in cases})
     samples = [by_id[o["id"]] for o in obs[:: max(1, len(obs) // 5)]][:5]
